@@ -18,6 +18,7 @@ type genState struct {
 	profile string
 	schema  schemaSpec
 	pool    []uuid.UUID
+	tagOK   bool // histories that may contain the tagged known-finding request shape (F14)
 	sent    map[uuid.UUID]Val // approximate bookkeeping of what is stored (only to pick interesting values)
 	maxSize int
 	noRej   bool // avoid batches that are rejected inside the transaction (memstore has no rollback)
@@ -54,6 +55,7 @@ func newGen(profile string, seed uint64, idx int) *genState {
 		g.pool = append(g.pool, u)
 	}
 	g.words = vocab
+	g.tagOK = idx%3 == 0
 	g.large = large
 	g.schema = g.pickSchema(idx)
 	for _, ix := range g.schema {
@@ -647,7 +649,9 @@ func (g *genState) genBatch(step int) batchSpec {
 					keep = append(keep, p)
 				}
 			}
-			if r.IntN(3) > 0 {
+			// the known-finding shape only in every third history: whatever follows it in the same history is
+			// judged under that finding (the graph is damaged from there on)
+			if r.IntN(3) > 0 || !g.tagOK {
 				b.points = append(keep, del, set)
 			} else {
 				b.points = append(keep, set, del)
